@@ -510,7 +510,11 @@ func (o *ObjectSchema) expandSubObjectDefaultValues(
 	}
 	subObjectDefaults := subObject.GetDefaults()
 	for k, v := range subObjectDefaults {
-		data[k] = v
+		if _, isSet := data[k]; !isSet {
+			// What the default of the parent's property says about the sub-object is more specific than the
+			// sub-object's own defaults, and is not overridden by them.
+			data[k] = v
+		}
 	}
 	for subPropertyID, subProperty := range subObject.Properties() {
 		o.expandSubObjectDefaultValues(subPropertyID, subProperty, data, expanding)
